@@ -435,7 +435,9 @@ let () =
             let s = { id; kind; opts; pre = !pre; threads = !threads } in
             loc_fn := None;
             (match kind with
-             | "jdk" -> process_runs jdk_comp s ic
+             | "jdk" ->
+               loc_fn := Some (fun o -> jdk_loc ((Obj.obj o : qlocal).l_pc));
+               process_runs jdk_comp s ic
              | "mutex" -> process_runs mutex_comp s ic
              | "jdkadd" ->
                loc_fn := Some (fun o -> striped_loc (Obj.obj o));
